@@ -157,6 +157,35 @@ def unresolved(*values):
     return out
 
 
+def input_free(v):
+    """the value is built from literals only (numbers, strings, None / True / False, pi) - through operations the evaluator kept opaque: it has one fixed
+    value, which the evaluator does not know"""
+    for n in sym_names(v):
+        if n in ("None", "True", "False", "pi") or (len(n) >= 2 and n[0] in "'\"" and n[-1] == n[0]):
+            continue
+        return False
+    return True
+
+
+def uninitialised(*values, handles=False):
+    """`empty(shape)` atoms inside the values: the contents of a freshly allocated array taken as data - the stores that filled it were not followed, so a
+    comparison that fails on such a value says nothing about the code"""
+    out = []
+    for v in values:
+        if v is None or is_unknown(v) or isinstance(v, DictValue):
+            continue
+        if isinstance(v, tuple):
+            out.extend(uninitialised(*v, handles=handles))
+            continue
+        if handles and (unfn(v) or ("",))[0] == "empty":
+            continue                    # the allocation itself (a rule that looks at its shape), not its contents in arithmetic
+        for a in all_atoms(v):
+            d = F.atom_desc(a)
+            if d[0] == "fn" and d[1] == "empty":
+                out.append(repr(F.Rat(F.Poly.atom(a)))[:200])
+    return out
+
+
 def truth(v):
     """three-valued truth of a value: constants, None / True / False, string literals"""
     if v is None or is_unknown(v):
@@ -418,6 +447,17 @@ def array_call(node, ev):
             n = sym_of(v)
             if n is not None and ev.inline and n in ev.inline:
                 return TRUE
+    if attr in ("index", "count") and not _is_np(d) and len(node.args) == 1 and not kw:
+        base = ev.ev(node.func.value)
+        if isinstance(base, tuple):
+            ka = _scalar_key(ev.ev(node.args[0]))
+            kb = [_scalar_key(x) for x in base]
+            if ka is not None and all(k is not None for k in kb):
+                if attr == "count":
+                    return F.const(kb.count(ka))
+                if ka in kb:
+                    return F.const(kb.index(ka))
+                return Unknown("display.index of a value that is not an element (raises)")
     if attr == "get" and not _is_np(d) and 1 <= len(node.args) <= 2 and not kw:
         base = ev.ev(node.func.value)
         if isinstance(base, DictValue):
@@ -425,6 +465,13 @@ def array_call(node, ev):
             if ok:
                 if k in base.d:
                     return base.d[k]
+                return ev.ev(node.args[1]) if len(node.args) == 2 else NONE
+        elif hasattr(ev, "as_table"):
+            t = ev.as_table(base)
+            ok, k = pykey(ev.ev(node.args[0]))
+            if t is not None and ok:
+                if k in t.d:
+                    return F.fn("idx", need(base), ev.ev(node.args[0]))       # the entry of the dictionary object, as `d[key]` reads it
                 return ev.ev(node.args[1]) if len(node.args) == 2 else NONE
     if d == "isinstance" and len(node.args) == 2:
         v = ev.ev(node.args[0])
@@ -517,6 +564,61 @@ def counted_while(st):
 
 _STORED = {}
 _FLOATS = {}
+_MATCH_TESTS = {}
+
+
+def _full_slice(sl):
+    """syntactically `...`, `:` or a tuple of these"""
+    if isinstance(sl, ast.Tuple):
+        return bool(sl.elts) and all(_full_slice(e) for e in sl.elts)
+    if isinstance(sl, ast.Constant):
+        return sl.value is Ellipsis
+    return isinstance(sl, ast.Slice) and sl.lower is None and sl.upper is None and sl.step is None
+
+
+def effect_targets(call):
+    """the expressions a call writes into, by the conventions of numpy: `out=`, the first argument of np.copyto / np.put / np.place / np.putmask /
+    np.fill_diagonal, the receiver of `.fill()`"""
+    out = []
+    for k in call.keywords:
+        if k.arg == "out":
+            out.extend(k.value.elts if isinstance(k.value, ast.Tuple) else [k.value])
+    d = dotted(call.func) or ""
+    if _is_np(d) and d.split(".")[-1] in ("copyto", "put", "place", "putmask", "fill_diagonal", "put_along_axis") and call.args:
+        out.append(call.args[0])
+    if isinstance(call.func, ast.Attribute) and call.func.attr == "fill" and not _is_np(d):
+        out.append(call.func.value)
+    return out
+
+
+def match_test(subject, pattern, guard=None):
+    """the test a `case` pattern stands for, as an expression over the subject (cached per pattern node: rules and the path explorer identify tests by node);
+    None for patterns that bind or destructure (not modelled)"""
+    k = id(pattern)
+    if k in _MATCH_TESTS and _MATCH_TESTS[k][0] is pattern:
+        return _MATCH_TESTS[k][1]
+
+    def build(p_):
+        if isinstance(p_, ast.MatchValue):
+            return ast.Compare(left=subject, ops=[ast.Eq()], comparators=[p_.value])
+        if isinstance(p_, ast.MatchSingleton):
+            return ast.Compare(left=subject, ops=[ast.Is()], comparators=[ast.Constant(value=p_.value)])
+        if isinstance(p_, ast.MatchOr):
+            parts = [build(q) for q in p_.patterns]
+            return None if any(q is None for q in parts) else ast.BoolOp(op=ast.Or(), values=parts)
+        if isinstance(p_, ast.MatchAs) and p_.pattern is None and p_.name is None:
+            return ast.Constant(value=True)
+        return None
+    t = build(pattern)
+    if t is not None and guard is not None:
+        t = ast.BoolOp(op=ast.And(), values=[t, guard])
+    if t is not None:
+        for n in ast.walk(t):
+            if not hasattr(n, "lineno"):
+                ast.copy_location(n, pattern)
+        ast.fix_missing_locations(t)
+    _MATCH_TESTS[k] = (pattern, t)
+    return t
 
 
 def _stored_names(fn):
@@ -534,15 +636,28 @@ class Ev3(AutoEvaluator):
 
     def __init__(self, fn=None, **kw):
         super().__init__(fn, **kw)
+        self.fn_node = fn
         self.deep = []        # stores through a nested subscript target: (value of the container element, index value, stored value, node)
         self.erase_T = True
         self.loop_once = True
         self.inplace = {}
         if fn is not None:
             # also `X[0], X[1] = a, b`, `for X[k] in ...`, `X[i]: float = v`: every subscript store on a bare name
+            partial_store = set()
             for n in ast.walk(fn):
                 if isinstance(n, ast.Subscript) and isinstance(n.ctx, ast.Store) and isinstance(n.value, ast.Name):
                     self.buffers.add(n.value.id)
+                    if not _full_slice(n.slice):
+                        partial_store.add(n.value.id)
+                if isinstance(n, ast.Call):
+                    # a part of an array handed to a call that writes into it: `np.add(x, y, out=A[k])`, `np.copyto(A[:, j], v)`, `A[k].fill(v)`
+                    for t in effect_targets(n):
+                        if isinstance(t, ast.Subscript) and isinstance(t.value, ast.Name) and not _full_slice(t.slice):
+                            self.buffers.add(t.value.id)
+                            partial_store.add(t.value.id)
+            # a name that is only ever written as a whole (`X[...] = v`, `X[:] += y`) holds a value like any other local - or denotes a row / entry of an
+            # array object (`for row in A: row[...] = v`), in which case the store goes there (`_store_full`)
+            self.buffers &= partial_store
         self.bufmap = {}      # source name of a buffer of this function -> name of the array object it denotes (itself unless rebound / inlined)
         self.shared = set()   # source names of buffers that currently denote an object of the caller / of a callee / of another name
         self.foreign = set()  # names of array objects created in inlined callees (their stores are in self.cells, their creation in <init:name>)
@@ -554,6 +669,7 @@ class Ev3(AutoEvaluator):
         self.lambdas = {}     # symbol of a lambda value -> (Lambda node, evaluator whose scope it closes over | None for a module-level one); shared with callees
         self.arrays = set()   # symbols the rule declares to be numeric arrays (never None; their elements are numbers)
         self.modfuncs = frozenset()   # names of the module-level functions of the module under evaluation
+        self.parent = None    # the evaluator of the caller (an inlined callee asks it about the array objects it was handed)
         self._cur_stmt = None
 
     def bname(self, name):
@@ -577,6 +693,10 @@ class Ev3(AutoEvaluator):
             return self.env.get("<cur:%s>" % b, F.sym(b))
         if isinstance(node, ast.Name) and node.id not in self.env and node.id in self.globals:
             return self.globals[node.id]          # a module-level name another function (or the rule) bound: a worker global
+        if isinstance(node, ast.Subscript) and _full_slice(node.slice) and isinstance(node.value, (ast.Name, ast.Attribute)):
+            base = self.ev(node.value)
+            if not isinstance(base, DictValue):
+                return base                            # X[...] / X[:]: every element
         if isinstance(node, ast.Subscript):
             if isinstance(node.value, ast.Name) and isinstance(node.ctx, ast.Load) and node.value.id not in self.buffers:
                 cur = self.env.get(node.value.id)
@@ -603,6 +723,41 @@ class Ev3(AutoEvaluator):
             r = self.compare(node)
             if r is not None:
                 return TRUE if r else FALSE
+        if isinstance(node, ast.BinOp) and isinstance(node.op, (ast.Add, ast.Sub, ast.Mult, ast.Div, ast.Pow)) \
+                and any(isinstance(x, (ast.Compare, ast.BoolOp)) or (isinstance(x, ast.UnaryOp) and isinstance(x.op, ast.Not))
+                        or (isinstance(x, ast.Name) and x.id not in self.buffers and sym_of(self.env.get(x.id)) in ("True", "False")) for x in (node.left, node.right)):
+            # a decided truth value in arithmetic: M * (ptr == 2), N - flag  (True is 1, False is 0)
+            a, b = self.ev(node.left), self.ev(node.right)
+            conv = {"True": F.const(1), "False": F.const(0)}
+            if sym_of(a) in conv or sym_of(b) in conv:
+                return arith(node.op, conv.get(sym_of(a), a), conv.get(sym_of(b), b))
+        if isinstance(node, ast.BinOp) and isinstance(node.op, ast.Mod):
+            fmt = str_of(self.ev(node.left))
+            if fmt is not None:
+                # "beta%d" % k with constants: the string (a key of a literal table)
+                r = self.ev(node.right)
+                ks = [pykey(x) for x in (r if isinstance(r, tuple) else (r,))]
+                if all(ok for ok, _k in ks):
+                    try:
+                        return S(fmt % tuple(k for _ok, k in ks))
+                    except Exception:  # noqa
+                        pass
+        if isinstance(node, ast.JoinedStr):
+            parts = []
+            for v in node.values:
+                if isinstance(v, ast.Constant) and isinstance(v.value, str):
+                    parts.append(v.value)
+                elif isinstance(v, ast.FormattedValue) and v.format_spec is None and v.conversion == -1:
+                    ok, k = pykey(self.ev(v.value))
+                    if not ok or isinstance(k, bool) or k is None:
+                        parts = None
+                        break
+                    parts.append(str(k))
+                else:
+                    parts = None
+                    break
+            if parts is not None:
+                return S("".join(parts))              # an f-string of constants: the string
         if isinstance(node, ast.Lambda):
             # a function value: a symbol of its own (position in the source; a local one also the call path), applied where it is called
             module_level = bool(self._folding)
@@ -658,6 +813,12 @@ class Ev3(AutoEvaluator):
         a = self.ev(node.left)
         b = self.ev(node.comparators[0])
         if isinstance(op, (ast.In, ast.NotIn)):
+            t = self.as_table(b) if not isinstance(b, tuple) else None
+            if t is not None:
+                ok, k = pykey(a)                       # key in table
+                if ok:
+                    return (k in t.d) == isinstance(op, ast.In)
+                return None
             if isinstance(b, tuple):
                 ka = _scalar_key(a)
                 kb = [_scalar_key(x) for x in b]
@@ -717,13 +878,18 @@ class Ev3(AutoEvaluator):
             b = args[0]
             bn = sym_of(b)
             if bn is not None and self.is_array_object(bn):
-                init = self.env.get("<init:%s>" % bn)
+                init, cells, e = None, [], self
+                while e is not None:                  # the object may belong to a caller: its creation and its earlier stores are recorded there
+                    if init is None:
+                        init = e.env.get("<init:%s>" % bn)
+                    cells = [c for c in e.cells if c[0] == bn] + cells
+                    e = e.parent
                 k = str_of(args[1])
                 if k is not None or isinstance(init, DictValue):
                     if k is None:
                         return False
                     vals = [init.d[k]] if isinstance(init, DictValue) and k in init.d else []
-                    vals += [c[2] for c in self.cells if c[0] == bn and not is_unknown(c[1]) and str_of(c[1]) == k]
+                    vals += [c[2] for c in cells if not is_unknown(c[1]) and str_of(c[1]) == k]
                     return bool(vals) and self.not_none(vals[-1], depth + 1)
                 ui = unfn(init) if init is not None and not is_unknown(init) and not isinstance(init, (tuple, DictValue)) else None
                 return bool(ui and ui[0] in ("zeros", "empty"))
@@ -786,7 +952,7 @@ class Ev3(AutoEvaluator):
                     return [(F.const(k), None) for k in r] if len(r) <= 64 else None
                 return None
             if isinstance(it.func, ast.Attribute) and it.func.attr in ("items", "keys", "values") and not it.args and not it.keywords:
-                base = self.ev(it.func.value)
+                base = self.as_table(self.ev(it.func.value))
                 if isinstance(base, DictValue):
                     if it.func.attr == "keys":
                         return [(self._key_value(k), None) for k in base.d]
@@ -915,6 +1081,34 @@ class Ev3(AutoEvaluator):
                 return
         if isinstance(st, ast.Global):
             self.global_names.update(st.names)
+            return
+        if isinstance(st, (ast.FunctionDef,)) and self.fn_node is not None and st is not self.fn_node:
+            # a nested function: a function value that closes over this scope; applied where it is called
+            name = "<def:%s@%d.%d%s>" % (st.name, st.lineno, st.col_offset, self.chain)
+            self.lambdas[name] = (st, self)
+            if st.name not in self.pinned:
+                self.buffers.discard(st.name)
+                self.env[st.name] = F.sym(name)
+            return
+        if isinstance(st, ast.Match):
+            self.ev(st.subject)
+            for case in st.cases:
+                t = match_test(st.subject, case.pattern, case.guard)
+                c = None if t is None else (True if isinstance(t, ast.Constant) and t.value is True else self.decide(t))
+                if c is True:
+                    self.run(case.body)
+                    return
+                if c is None:
+                    from .e2_eval import _assigned_names
+                    for n in _assigned_names(st):
+                        if n not in self.pinned and n not in self.buffers:
+                            self.env[n] = Unknown("assigned under an undecided `case`")
+                    for n in _assigned_names(st):
+                        if n in self.buffers:
+                            self.seq += 1
+                            self.cell_seq.append(self.seq)
+                            self.cells.append((self.bname(n), Unknown("a store under an undecided `case`"), Unknown("a store under an undecided `case`"), st))
+                    return
             return
         if isinstance(st, ast.Try):
             # the path on which nothing is raised: body, else, finally (the handlers belong to the exceptional paths)
@@ -1077,6 +1271,13 @@ class Ev3(AutoEvaluator):
             self.cell_seq.append(self.seq)
             self.cells.append((b, ix, v, st))
             return
+        if isinstance(target, ast.Subscript) and isinstance(target.value, ast.Name) and target.value.id not in self.buffers and _full_slice(target.slice):
+            self._store_full(target.value, v, st)          # X[...] = v on a local that holds a value or denotes a row of an array object
+            return
+        if isinstance(target, ast.Subscript) and isinstance(target.value, ast.Name) and target.value.id not in self.buffers:
+            self._promote(target.value)                    # a store into part of a freshly allocated array: from here on an array object
+            if target.value.id in self.buffers:
+                return self._assign(target, v, st, aug)
         if isinstance(target, ast.Subscript) and not (isinstance(target.value, ast.Name) and target.value.id in self.buffers) \
                 and isinstance(target.value, (ast.Subscript, ast.Attribute, ast.Name)):
             base = self.ev(target.value)
@@ -1105,6 +1306,30 @@ class Ev3(AutoEvaluator):
                 for m, val in list(self.env.items()):
                     if val is cur and not m.startswith("<") and m not in self.pinned and m not in self.buffers:
                         self.alias_of[m] = node.id
+
+    def as_table(self, v):
+        """a literal table, or a dictionary object of this evaluation that was created from one and filled under constant keys only: its contents as
+        a DictValue (entry order = creation, then stores); None otherwise"""
+        if isinstance(v, DictValue):
+            return v
+        n = sym_of(v) if (v is not None and not is_unknown(v) and not isinstance(v, tuple)) else None
+        if n is None or not self.is_array_object(n):
+            return None
+        init, cells, e = None, [], self
+        while e is not None:
+            if init is None:
+                init = e.env.get("<init:%s>" % n)
+            cells = [c for c in e.cells if c[0] == n and c not in cells] + cells
+            e = e.parent
+        if not isinstance(init, DictValue) or ("<cur:%s>" % n) in self.env:
+            return None
+        d = dict(init.d)
+        for _nm, ix, val, _st in cells:
+            ok, k = pykey(ix) if not is_unknown(ix) else (False, None)
+            if not ok:
+                return None
+            d[k] = val
+        return DictValue(d)
 
     def _view_of(self, v):
         """idx(A, key) with A an array object of this evaluation -> (name of A, key) else None"""
@@ -1306,7 +1531,29 @@ class Ev3(AutoEvaluator):
 
     def _apply_lambda(self, name, node):
         """the value of calling the lambda `name` with the arguments of the call `node`"""
-        lam, owner = self.lambdas[name]
+        entry = self.lambdas[name]
+        if entry[0] == "partial":
+            # functools.partial(f, *bound, **boundkw)(args): f(*bound, *args, **boundkw, **kw)
+            fname = sym_of(entry[1])
+            if fname is not None and fname not in self.lambdas and self.inline and fname in self.inline:
+                return self._inline_call(node, fn=self.inline[fname], name=fname, pre_pos=entry[2], pre_kw=entry[3])
+            return NotImplemented
+        lam, owner = entry
+        if isinstance(lam, ast.FunctionDef):
+            # a nested function called in the scope that defines it: its free names are read there, at the time of the call
+            if owner is not self or any(isinstance(n, (ast.Nonlocal, ast.Global, ast.Yield, ast.YieldFrom, ast.Await)) for n in ast.walk(lam)):
+                return NotImplemented
+            bound = {x.arg for x in lam.args.posonlyargs + lam.args.args + lam.args.kwonlyargs}
+            bound |= {n.id for n in ast.walk(lam) if isinstance(n, ast.Name) and isinstance(n.ctx, ast.Store)}
+            bound |= {n.name for n in ast.walk(lam) if isinstance(n, ast.FunctionDef) and n is not lam}
+            implicit = {}
+            for n in sorted({n.id for n in ast.walk(lam) if isinstance(n, ast.Name)} - bound):
+                if n in self.buffers:
+                    # an array object of this scope: the object itself where the nested function stores into it, its current value where it only reads it
+                    implicit[n] = F.sym(self.bname(n)) if n in _stored_names(lam) else self.ev(ast.copy_location(ast.Name(id=n, ctx=ast.Load()), lam))
+                elif n in self.env:
+                    implicit[n] = self.env[n]
+            return self._inline_call(node, fn=lam, name=lam.name, implicit=implicit)
         a = lam.args
         params = [x.arg for x in a.posonlyargs + a.args]
         if a.vararg or a.kwarg or a.kwonlyargs or any(isinstance(x, ast.Starred) for x in node.args) or any(k.arg is None for k in node.keywords) \
@@ -1355,7 +1602,7 @@ class Ev3(AutoEvaluator):
         sub.loop_unroll, sub.loop_once, sub.forward_stores, sub.erase_T = self.loop_unroll, self.loop_once, self.forward_stores, self.erase_T
         sub.seq = self.seq
         sub.globals = self.globals
-        sub.lambdas, sub.arrays, sub.modfuncs = self.lambdas, self.arrays, self.modfuncs
+        sub.lambdas, sub.arrays, sub.modfuncs, sub.parent = self.lambdas, self.arrays, self.modfuncs, self
         sub.chain = "%s/%s.%s" % (self.chain, getattr(node, "lineno", 0), getattr(node, "col_offset", 0))
         sub.foreign = set(self.foreign) | {self.bname(b) for b in self.buffers}
 
@@ -1368,6 +1615,34 @@ class Ev3(AutoEvaluator):
         self.seq = sub.seq
 
     # ------------------------------------------------------------ calls
+    def _record_call(self, node):
+        """as in the base class, with `*display` and `**table` spliced into the recorded positional and keyword values"""
+        name = dotted(node.func)
+        if name is None and isinstance(node.func, ast.Attribute):
+            name = "." + node.func.attr
+        if name is None:
+            return
+        pos, kws = [], {}
+        for a in node.args:
+            if isinstance(a, ast.Starred):
+                v = self.ev(a.value)
+                if isinstance(v, tuple):
+                    pos.extend(v)
+                else:
+                    pos.append(Unknown("unpacking of a value that is not a display"))
+            else:
+                pos.append(self.ev(a))
+        for k in node.keywords:
+            if k.arg is None:
+                v = self.as_table(self.ev(k.value))
+                if isinstance(v, DictValue):
+                    kws.update({q: e for q, e in v.d.items() if isinstance(q, str)})
+            else:
+                kws[k.arg] = self.ev(k.value)
+        self.seq += 1
+        self.call_seq.append(self.seq)
+        self.calls.append((name, pos, kws, node))
+
     def _call(self, node):
         r = self._call3(node)
         if isinstance(r, PyTuple) and not (isinstance(node.func, ast.Name) and node.func.id in ("tuple", "list") and "tuple" not in self.env):
@@ -1400,6 +1675,13 @@ class Ev3(AutoEvaluator):
         r = self._effects(node)
         if r is not NotImplemented:
             return r
+        if dotted(node.func) in ("partial", "functools.partial", "ft.partial") and node.args and not any(isinstance(x, ast.Starred) for x in node.args) \
+                and all(k.arg is not None for k in node.keywords) and "partial" not in self.env:
+            fv = self.ev(node.args[0])
+            if not is_unknown(fv) and not isinstance(fv, (tuple, DictValue)) and sym_of(fv) is not None:
+                name = "<partial:%d.%d%s>" % (getattr(node, "lineno", 0), getattr(node, "col_offset", 0), self.chain)
+                self.lambdas[name] = ("partial", fv, tuple(self.ev(x) for x in node.args[1:]), {k.arg: self.ev(k.value) for k in node.keywords})
+                return F.sym(name)
         for h in self.hooks:
             r = h(node, self)
             if r is not NotImplemented:
@@ -1454,7 +1736,9 @@ class Ev3(AutoEvaluator):
                 return F.fn("apply", *args)
         return super()._call(node)
 
-    def _inline_call(self, node, fn=None, name=None):
+    def _inline_call(self, node, fn=None, name=None, pre_pos=(), pre_kw=None, implicit=None):
+        """evaluate the call `node` of the function `fn` on the values of its arguments.  `pre_pos` / `pre_kw`: values bound ahead of the call's own arguments
+        (functools.partial); `implicit`: values of the free names of a nested function (its closure)"""
         if fn is None:
             name = dotted(node.func)
             fn = self.inline.get(name) if (self.inline and name) else None
@@ -1464,16 +1748,37 @@ class Ev3(AutoEvaluator):
             return NotImplemented
         a = fn.args
         params = [x.arg for x in a.posonlyargs + a.args]
-        if a.vararg or a.kwarg or any(isinstance(x, ast.Starred) for x in node.args) or any(k.arg is None for k in node.keywords):
-            return NotImplemented
-        if len(node.args) > len(params):
-            return NotImplemented
-        env = {}
         kwonly = [x.arg for x in a.kwonlyargs]
+        if a.vararg or a.kwarg:
+            return NotImplemented
+        # the arguments in order, as (value, None) or (None, node): `*display` and `**table` are spliced
+        pos = [(v, None) for v in pre_pos]
+        for x in node.args:
+            if isinstance(x, ast.Starred):
+                v = self.ev(x.value)
+                if not isinstance(v, tuple):
+                    return NotImplemented
+                pos.extend((e, None) for e in v)
+            else:
+                pos.append((None, x))
+        kws = {k: (v, None) for k, v in (pre_kw or {}).items()}
+        for k in node.keywords:
+            if k.arg is None:
+                v = self.as_table(self.ev(k.value))
+                if not isinstance(v, DictValue) or not all(isinstance(q, str) for q in v.d):
+                    return NotImplemented
+                for q, e in v.d.items():
+                    kws[q] = (e, None)
+            else:
+                kws[k.arg] = (None, k.value)
+        if len(pos) > len(params) or any(k not in params and k not in kwonly for k in kws) or any(k in params[:len(pos)] for k in kws):
+            return NotImplemented
+        pairs = list(zip(params, pos)) + list(kws.items())
+        env = dict(implicit or {})
         # a freshly allocated local array of the caller that the callee fills through its parameter (`a = np.empty(...); helper(..., a)`): from here on the
         # caller's name denotes an array object of its own, so that the callee's stores are stores into it
         filled = _stored_names(fn)
-        for p_, x in list(zip(params, node.args)) + [(k.arg, k.value) for k in node.keywords]:
+        for p_, (_v, x) in pairs:
             if p_ in filled and isinstance(x, ast.Name) and x.id not in self.buffers and x.id not in self.pinned and x.id in self.env:
                 cur = self.env[x.id]
                 u = unfn(cur) if (cur is not None and not is_unknown(cur) and not isinstance(cur, (tuple, DictValue))) else None
@@ -1481,12 +1786,8 @@ class Ev3(AutoEvaluator):
                     self.buffers.add(x.id)
                     self.env["<init:%s>" % x.id] = cur
                     del self.env[x.id]
-        for p_, x in zip(params, node.args):
-            env[p_] = self.ev(x)
-        for k in node.keywords:
-            if k.arg not in params and k.arg not in kwonly:
-                return NotImplemented
-            env[k.arg] = self.ev(k.value)
+        for p_, (v, x) in pairs:
+            env[p_] = v if x is None else self.ev(x)
         dflt = dict(zip(params[::-1], (a.defaults or [])[::-1]))
         for p_ in params:
             if p_ not in env:
@@ -1505,7 +1806,7 @@ class Ev3(AutoEvaluator):
         sub.loop_unroll, sub.loop_once, sub.forward_stores, sub.erase_T = self.loop_unroll, self.loop_once, self.forward_stores, self.erase_T
         sub.seq = self.seq
         sub.globals = self.globals
-        sub.lambdas, sub.arrays, sub.modfuncs = self.lambdas, self.arrays, self.modfuncs
+        sub.lambdas, sub.arrays, sub.modfuncs, sub.parent = self.lambdas, self.arrays, self.modfuncs, self
         sub.chain = "%s/%s.%s" % (self.chain, getattr(node, "lineno", 0), getattr(node, "col_offset", 0))
         sub.foreign = set(self.foreign) | {self.bname(b) for b in self.buffers}
         # the arrays the callee fills by subscript stores: a parameter is the caller's array object when the argument is one symbol (the stores are
@@ -1513,7 +1814,7 @@ class Ev3(AutoEvaluator):
         # a local is a new object with a name no other evaluation of this or any other function uses
         through = {}
         for b in sorted(sub.buffers):
-            pv = env.get(b) if (b in params or b in kwonly) else None
+            pv = env.get(b) if (b in params or b in kwonly or (implicit and b in implicit)) else None
             cn = sym_of(pv) if pv is not None else None
             if cn is not None and cn not in ("None", "True", "False") and str_of(pv) is None:
                 sub.bufmap[b] = cn
@@ -1545,7 +1846,7 @@ class Ev3(AutoEvaluator):
                 self.env[k] = v
         # x += v on an array parameter updates the caller's array
         plain = {t.id for n in ast.walk(fn) if isinstance(n, ast.Assign) for t in n.targets if isinstance(t, ast.Name)}
-        for p_, x in list(zip(params, node.args)) + [(k.arg, k.value) for k in node.keywords]:
+        for p_, x in [(q, nd) for q, (_v, nd) in pairs if nd is not None]:
             if sub.inplace.get(p_) and p_ not in plain and p_ in sub.env and isinstance(x, ast.Name) and x.id not in self.pinned and p_ not in sub.buffers:
                 if x.id in self.buffers:
                     self.env["<cur:%s>" % self.bname(x.id)] = sub.env[p_]
@@ -1692,6 +1993,12 @@ def explore(ctx, fn, rel, fixed=None, limit=64, **kw):
             k = id(test)
             if k in cache:
                 return cache[k]
+            v = ev.ev(test)
+            if is_unknown(v):
+                # exactly one way is feasible and the evaluator does not know which: exploring both would judge a path that cannot occur
+                raise Unsupported(f"a test on a value the evaluator could not determine: `{ast.unparse(test)}` ({v.why})"[:300])
+            if v is not None and not isinstance(v, (tuple, DictValue)) and input_free(v):
+                raise Unsupported(f"a test on a constant the evaluator cannot compute: `{ast.unparse(test)}` = {v!r}"[:300])
             i = len(taken)
             if i < len(prefix):
                 v = prefix[i]
